@@ -57,4 +57,64 @@ Section BvhColliders.
 
   Lemma construct_good s p : c_good (construct F Conn K s p).
   Proof. split; [apply construct_Inv|]. exists s, p. apply sim_refl. Qed.
+
+  (** ** end to end: history, then the box query, in terms of the transform manager *)
+  Section EndToEnd.
+    Variable le : F -> F -> bool.
+    Variables cmin cmax : F -> F -> F.
+    Variable czero : F.
+    Variable go_left : AabbTree.box F -> AabbTree.box F -> AabbTree.box F -> bool.
+    Variable cost_ok : AabbTree.box F -> AabbTree.box F -> AabbTree.box F -> AabbTree.box F -> bool.
+    Hypothesis le_trans : forall a b c, le a b = true -> le b c = true -> le a c = true.
+    Hypothesis cmin_l : forall a b, le (cmin a b) a = true.
+    Hypothesis cmin_r : forall a b, le (cmin a b) b = true.
+    Hypothesis cmax_l : forall a b, le a (cmax a b) = true.
+    Hypothesis cmax_r : forall a b, le b (cmax a b) = true.
+    Variable frame : Type.
+    Variable feqb : frame -> frame -> bool.
+    Hypothesis feqb_spec : forall a b, feqb a b = true <-> a = b.
+
+    Notation state := (state F frame coll (Pose F)).
+    Notation run_ops := (run_ops F cmin cmax czero go_left cost_ok frame feqb coll (Pose F) c_upd c_aabb).
+
+    (** after any history ending with update_collider_poses, aabb_overlapping_colliders
+        returns exactly the registered colliders outside the whitelist for which a collider
+        of the same shape built at the transform manager's CURRENT transform of the frame has
+        an aabb overlapping the query box *)
+    Theorem history_box_query_exact (st0 : state) h st q wl :
+      NoDup (map fst (colliders _ _ _ _ st0)) -> Forall c_good (heap _ _ _ _ st0) ->
+      run_ops st0 (h ++ [UpdatePoses frame (Pose F)]) = XOk st ->
+      NoDup (map snd (colliders _ _ _ _ st)) ->
+      exists r, aabb_overlapping_colliders F le frame feqb coll (Pose F) st q wl = XOk r /\
+        NoDup (map fst r) /\
+        forall f o, In (f, o) r <->
+          In (f, o) (colliders _ _ _ _ st) /\ ~ In f wl /\
+          exists c s p, nth_error (heap _ _ _ _ st) o = Some c /\ tmap _ _ _ _ st f = Some p /\
+                        sim F Conn c (construct F Conn K s p) /\
+                        overlap F le (c_aabb (construct F Conn K s p)) q = true.
+    Proof.
+      intros Hk Hg Hrun Hid.
+      destruct (history_poses_current F le cmin cmax czero go_left cost_ok frame feqb feqb_spec
+                  coll (Pose F) c_upd c_aabb c_good c_at c_upd_good c_upd_at st0 h st Hk Hg Hrun Hid)
+        as (HI & Hat).
+      destruct (overlapping_colliders_exact F le cmin cmax go_left cost_ok le_trans cmin_l cmin_r
+                  cmax_l cmax_r frame feqb feqb_spec coll (Pose F) c_aabb st q wl HI)
+        as (r & Hr & Hn & Hiff).
+      exists r. split; auto. split; auto. intros f o. rewrite Hiff. split.
+      - intros (Hin & Hwl & c & Hc & Ho). repeat split; auto.
+        destruct (Hat f o Hin) as (p & c' & Hp & Hc' & s & Hs & Hb).
+        assert (c' = c) by congruence. subst c'.
+        exists c, s, p. repeat split; auto. rewrite <- Hb. exact Ho.
+      - intros (Hin & Hwl & c & s & p & Hc & Hp & Hs & Ho). repeat split; auto.
+        exists c. split; auto.
+        destruct (Hat f o Hin) as (p' & c' & Hp' & Hc' & s' & Hs' & Hb').
+        assert (c' = c) by congruence. assert (p' = p) by congruence. subst c' p'.
+        (* the aabb of c is that of a fresh collider of ITS shape at p; same data => same aabb *)
+        rewrite Hb'. unfold c_aabb.
+        rewrite (aabb_data F Conn K (construct F Conn K s' p) (construct F Conn K s p)); auto.
+        + apply construct_Inv.
+        + apply construct_Inv.
+        + eapply sim_trans; [|exact Hs]. apply sim_sym. exact Hs'.
+    Qed.
+  End EndToEnd.
 End BvhColliders.
